@@ -164,6 +164,7 @@ func drawStop(rt *rapid.T, o gen.HistOpt, kinds []string) *StopCase {
 	c.Handler = rapid.IntRange(0, 2).Draw(rt, "handler_mode")
 	if k == "cancel_gate" {
 		c.Handler = HandlerGated
+		c.HoldMs = rapid.SampledFrom([]int{30, 30, 150, 400}).Draw(rt, "hold_ms")
 	}
 	if c.Handler == HandlerGated {
 		c.GateCall = rapid.IntRange(1, max(1, ntx)).Draw(rt, "gate_call")
